@@ -2,7 +2,7 @@
   Model.BlockCheck — lib/chain/block_check.go (PreCheckBlock, GetBlockFlags, PostCheckBlock, CheckBlock),
   lib/chain/chain_accept.go CheckTransactions, lib/btc/tx.go (IsCoinBase, CheckTransaction, IsFinal),
   lib/btc/funcs.go (CalcMerkle, GetWitnessMerkle), lib/btc/block.go (GetMerkle, weight formula of
-  BuildTxListExt), lib/script/misc.go UintToScript.
+  BuildTxListExt incl. WHEN it reads the object's transaction counter: `builtWeight`), lib/script/misc.go UintToScript.
   The order of the checks and the (dos, maybelater) outputs are mirrored statement by statement.
   Not modelled here: the byte-level transaction parser `NewTx` (property C09) — a parsed transaction is
   an input (`Tx`). The two `BlockIndex` look-ups of PreCheckBlock are by the 8-byte key `bidx` of a hash; what
